@@ -210,6 +210,9 @@ var hookShort = map[string]string{
 	"router.runhandlers.started":       "kg",
 	"router.watch.before_select":       "kw",
 	"decorator.sub.before_out":         "kd",
+	// not a verif hook: the router's own log line "Running router handlers", written by RunHandlers right after it took
+	// handlersLock (the harness's LoggerAdapter forwards it here so that a goroutine can be observed / parked there)
+	"logger.running_router_handlers": "kl",
 }
 
 // Hook is installed with message.SetVerifHook. Hook events of other packages (gochannel.*) are not logged.
